@@ -95,6 +95,7 @@ func sessAlphabet(offline, purge time.Duration) []sEvent {
 		sEvent{Kind: "setoffer", MAC: mC1, IP: iA}, sEvent{Kind: "setoffer", MAC: mC1, IP: iB},
 		sEvent{Kind: "capture", MAC: mC1}, sEvent{Kind: "release", MAC: mC1}, sEvent{Kind: "capture", MAC: mRouter},
 		sEvent{Kind: "name", IP: iA, Src: 1, Name: "n1"}, sEvent{Kind: "name", IP: iA, Src: 1, Name: "n2"}, sEvent{Kind: "name", IP: iA, Src: 2, Name: "n1"}, sEvent{Kind: "name", IP: iL1, Src: 3, Name: "n1"}, sEvent{Kind: "name", IP: iA, Src: 4, Name: "n1"},
+		sEvent{Kind: "name", IP: iA, Src: 1, Name: "n1+m"}, sEvent{Kind: "name", IP: iA, Src: 1, Name: "n2+m"}, // a rename that repeats the known model
 		sEvent{Kind: "tick", Dur: time.Minute}, sEvent{Kind: "tick", Dur: offline + time.Second}, sEvent{Kind: "tick", Dur: purge + time.Second},
 	)
 	return a
@@ -371,6 +372,9 @@ func implTriples(s *packet.Session) (triples []string, problems []string) {
 		t := fmt.Sprintf("%s/%s/%v", macLabel(h.MACEntry.MAC), h.Addr.IP, h.Online)
 		triples = append(triples, t)
 		byIP[t] = true
+		if !bytes.Equal(h.Addr.MAC, h.MACEntry.MAC) {
+			problems = append(problems, fmt.Sprintf("GetHosts reports %v with MAC %s, its MAC entry is %s", h.Addr.IP, h.Addr.MAC, h.MACEntry.MAC))
+		}
 	}
 	sort.Strings(triples)
 	// FindIP, IPAddrs, FindByMAC, FindMACEntry must agree with GetHosts
@@ -562,6 +566,9 @@ func runSession(alpha []sEvent, hist []int, o sessOpts) *sessResult {
 				case "name":
 					if h := s.FindIP(sIPs[ev.IP]); h != nil {
 						n := packet.NameEntry{Type: "t", Name: ev.Name}
+						if i := strings.Index(ev.Name, "+"); i >= 0 {
+							n.Name, n.Model = ev.Name[:i], ev.Name[i+1:]
+						}
 						switch ev.Src {
 						case 0:
 							h.UpdateDHCP4Name(n)
@@ -573,6 +580,11 @@ func runSession(alpha []sEvent, hist []int, o sessOpts) *sessResult {
 							h.UpdateLLMNRName(n)
 						case 4:
 							h.UpdateNBNSName(n)
+						}
+						// a later notification with the same content as the previous one is not a duplicate: the name changed
+						// in between (possibly back to what it was)
+						if prev, ok := lastNote[sIPs[ev.IP]]; ok && !strings.HasSuffix(prev, " (name updated since)") {
+							lastNote[sIPs[ev.IP]] = prev + " (name updated since)"
 						}
 					}
 				case "tick":
@@ -720,9 +732,19 @@ func runSession(alpha []sEvent, hist []int, o sessOpts) *sessResult {
 				fail("notify", "spurious", fmt.Sprintf("%d notification(s) for a frame that is not tracked", len(received)))
 			}
 			if ev.Kind == "tick" {
+				still := map[netip.Addr]bool{}
 				for _, h := range s.GetHosts() {
+					still[h.Addr.IP] = true
 					if onlineBefore[h.Addr.IP] && !h.Online {
 						checkOfflineReported(h, "aged out")
+					}
+				}
+				// an address that was online before the step and is gone after it went offline on the way
+				for _, ip := range sIPs {
+					if onlineBefore[ip] && !still[ip] {
+						if prev, ok := lastNote[ip]; ok && strings.Contains(prev, " online=true") {
+							fail("notify", "lost-offline", fmt.Sprintf("%v was removed while the last notification about it said online", ip))
+						}
 					}
 				}
 			}
@@ -822,6 +844,7 @@ func sessExplore(c *core.Ctx, class string) {
 		{f4c1a, tOff},                   // offline by ageing
 		{f4c1a, tOff, tPurge},           // purged
 		{f4c1a, find("f6", mC1, iL1, ""), find("dhcpupd", mC1, iB, "n1")},
+		{f4c1a, find("name", 0, iA, "n1+m"), f4c1a}, // a host whose name and model were learned and notified
 	}
 	ex := &eseq.Explorer{NEvents: len(alpha), Depth: depth, Shard: c.Shard, NShards: c.NShards, Seeds: seeds}
 	if c.Deadline > 0 {
@@ -840,6 +863,15 @@ func sessExplore(c *core.Ctx, class string) {
 			// a history is pruned only by violations of this property's own oracle (or a panic)
 			if strings.HasPrefix(v, class+"|") || strings.HasPrefix(v, "panic|") {
 				sr.Violations = append(sr.Violations, v)
+			}
+		}
+		if class == "model" && len(sr.Violations) == 0 {
+			o2 := o
+			o2.poison = 2
+			for _, v := range runSession(alpha, hist, o2).violations {
+				if strings.HasPrefix(v, "model|") {
+					sr.Violations = append(sr.Violations, v+" (history delivered through one reused receive buffer)")
+				}
 			}
 		}
 		if class == "invariant" && len(sr.Violations) == 0 {
@@ -955,6 +987,15 @@ func sessReplayer(data []byte) string {
 		parts := strings.SplitN(v, "|", 3)
 		if parts[0] == r.Class || parts[0] == "panic" {
 			return v
+		}
+	}
+	if r.Class == "model" {
+		o2 := o
+		o2.poison = 2
+		for _, v := range runSession(alpha, r.Hist, o2).violations {
+			if strings.HasPrefix(v, "model|") {
+				return v
+			}
 		}
 	}
 	if r.Class == "invariant" {
